@@ -268,4 +268,53 @@ def gainDev (g : MDG) (cp : Coupling) : Rat :=
   let cs := tabA s.nf (colSum s.nc s.D)
   maxTo s.nf (fun f => if isTarget cp f then absR (sumTo s.nf (fun k => rd cs k * cp.B k f) - 1) else 0)
 
+/-! ### construction of the integrated projections (`MortarGrid._set_projections`, `update_mortar`) -/
+
+def transposeM (M : Nat → Nat → Rat) : Nat → Nat → Rat := fun r c => M c r
+
+/-- row sum of a matrix with `n` columns -/
+def rowSum (n : Nat) (M : Nat → Nat → Rat) (r : Nat) : Rat := sumTo n (fun c => M r c)
+
+/-- matrix product, inner dimension `k` -/
+def matMul (k : Nat) (A B : Nat → Nat → Rat) : Nat → Nat → Rat :=
+  fun r c => sumTo k (fun j => A r j * B j c)
+
+/-- every one of the first `nr` rows sums to one (what `scaling="averaged"` / the initial 0-1
+    matching establishes for `_primary_to_mortar_avg` and `_secondary_to_mortar_avg`) -/
+def RowStochastic (nr nc : Nat) (M : Nat → Nat → Rat) : Prop := ∀ r, r < nr → rowSum nc M r = 1
+
+/-- `_set_projections`: `_mortar_to_primary_int = _primary_to_mortar_avg.T` (and likewise for the
+    secondary side) -/
+def setProjInt (avg : Nat → Nat → Rat) : Nat → Nat → Rat := transposeM avg
+
+/-- `update_mortar` / `update_secondary` / `update_primary` applied repeatedly: each update
+    `(n', U)` replaces the averaged map by `U * avg` (`U` has `n'` rows, one per new mortar cell) -/
+def applyUpdates (n : Nat) (avg : Nat → Nat → Rat) : List (Nat × (Nat → Nat → Rat)) → Nat × (Nat → Nat → Rat)
+  | [] => (n, avg)
+  | (n', U) :: rest => applyUpdates n' (matMul n U avg) rest
+
+/-- every update matrix is an averaged matching (unit row sums over the cells it replaces) -/
+def UpdatesOK (n : Nat) : List (Nat × (Nat → Nat → Rat)) → Prop
+  | [] => True
+  | (n', U) :: rest => RowStochastic n' n U ∧ UpdatesOK n' rest
+
+/-! ### Boolean (exact) versions of all hypotheses: decidable input conditions, evaluated by the
+    driver on the matrices and vectors of every case -/
+
+def checkValid (g : MDG) : Bool := g.cps.all (fun cp => decide (cp.prim < g.nsd) && decide (cp.sec < g.nsd))
+
+def checkH2 (g : MDG) (cp : Coupling) : Bool :=
+  allTo cp.nm (fun m => colSum (g.sd cp.prim).nf cp.Ppm m == 1 && colSum (g.sd cp.sec).nc cp.Psm m == 1)
+
+def checkNC (g : MDG) (cp : Coupling) : Bool :=
+  allTo (g.sd cp.prim).nf (fun f => !isTarget cp f || gain (g.sd cp.prim) cp.B f == 1)
+
+def checkClosed (s : Subdomain) : Bool :=
+  allTo s.nf (fun f => colSum s.nc s.D f == 0 || s.F f == 0)
+
+/-- all hypotheses of the headline theorem, exactly -/
+def checkAll (g : MDG) : Bool :=
+  checkValid g && g.cps.all (fun cp => checkH2 g cp && checkNC g cp) &&
+    allTo g.nsd (fun i => checkClosed (g.sd i))
+
 end PorepyVerif.C04
